@@ -72,6 +72,163 @@ def hooks_of(body):
     return out
 
 
+def _deep_atoms(v):
+    if isinstance(v, Poly):
+        return list(v.atoms_deep())
+    out = []
+    if isinstance(v, (tuple, list)):
+        for x in v:
+            out += _deep_atoms(x)
+    if isinstance(v, dict):
+        for x in v.values():
+            out += _deep_atoms(x)
+    return out
+
+
+def sign_and_step_rules(ck, F, ty, fam, tag, tr_, body):
+    """K5 / K7 for the min* families, read from the traced values of one check rule (flooding or layered)"""
+    from ..symx import evaluate, NotEvaluable, unkey, num_call
+    what = "%s:%s" % (ty, tag)
+    # -- the loop-carried parity and running-magnitude variables
+    par = [st for st in tr_.assign_sites if isinstance(st[1], Poly) and single_atom(st[1]) is not None and atom_fn(single_atom(st[1])) == "bitxor" and st[2]]
+    fold = [st for st in tr_.assign_sites if isinstance(st[1], tuple) and len(st[1]) == 3 and st[1][:2] == ("ctor", "Some") and st[2] and "@loop" in repr(st[1])]
+    if len(par) != 1 or len(fold) != 1:
+        ck.inst("K5", what, False, body.span, "expected one parity accumulator and one running magnitude (%d / %d found)" % (len(par), len(fold)))
+        return
+    pname = par[0][0].split("#")[0]
+    ploop = single_atom(var(pname + "@loop"))
+    # parity update: flips exactly when the message quantity X is negative; the other path conditions are those of the magnitude fold
+    xs = [(g, p) for g, p in par[0][3] if isinstance(g, Poly) and single_atom(g) is not None and atom_fn(single_atom(g)) == "lt" and atom_args(single_atom(g))[1] == num(0)]
+    rest = [(g, p) for g, p in par[0][3] if (g, p) not in xs]
+    upd_ok = False
+    X = None
+    if len(xs) == 1 and xs[0][1] is True:
+        X = atom_args(single_atom(xs[0][0]))[0]
+        try:
+            upd_ok = all(int(evaluate(par[0][1], {ploop: old})) == old ^ 1 for old in (0, 1))
+        except NotEvaluable:
+            upd_ok = False
+    same_guards = [(repr(g), p) for g, p in rest] == [(repr(g), p) for g, p in fold[0][3] if not (fam.startswith("aminstar"))] or \
+        (fam.startswith("aminstar") and not rest)
+    # -- outgoing values: every signed selection ite(c, +-Z, -+Z)
+    if tag == "flooding":
+        outs = [e.args[1][2].get("value") for e in tr_.events if e.callee == "<apply>" and isinstance(e.args[1], tuple) and e.args[1][0] == "struct"]
+    else:
+        outs = [e.args[1] for e in tr_.events if e.callee == "<assign>"]
+    signed = []
+    seen = set()
+    for a_ in _deep_atoms(outs):
+        if a_[0] == "f" and atom_fn(a_) == "ite" and a_ not in seen:
+            seen.add(a_)
+            c_, t_, e_ = atom_args(a_)
+            t_, e_ = unkey(t_), unkey(e_)
+            if isinstance(t_, Poly) and isinstance(e_, Poly) and t_ == -e_ and isinstance(c_, Poly):
+                signed.append((c_, t_, e_))
+    after = single_atom(var(pname + "@after"))
+
+    def unhook(m):
+        """magnitude under the documented partial hard limit  z -> -127 if z <= -100, 127 if z >= 100, else z   (identity otherwise)"""
+        a_ = single_atom(m) if isinstance(m, Poly) else None
+        if a_ is not None and atom_fn(a_) == "ite":
+            c1, t1, e1 = atom_args(a_)
+            e1 = unkey(e1)
+            a2 = single_atom(e1) if isinstance(e1, Poly) else None
+            if a2 is not None and atom_fn(a2) == "ite":
+                c2, t2, z = atom_args(a2)
+                z = unkey(z)
+                if isinstance(z, Poly) and unkey(t1) == num(-127) and unkey(t2) == num(127) and c1 == app("le", z, num(-100)) and c2 == app("le", num(100), z):
+                    return z
+        return m
+
+    def positive_arm(t_, e_):
+        """which arm is +Z: the magnitude is built around min(..) / the running value, which enters +Z with a positive coefficient"""
+        for arm, other in ((t_, e_), (e_, t_)):
+            if single_atom(arm) is not None and single_atom(-other) is not None:
+                return arm
+        for arm, other in ((t_, e_), (e_, t_)):
+            for mono, coef in arm.t.items():
+                if coef > 0 and any(a_[0] == "f" and (atom_fn(a_) in ("min", "max") or atom_fn(a_).endswith("::expect") or atom_fn(a_).endswith("::unwrap")) for a_, _ in mono):
+                    return arm
+        return None
+    tables_ok = bool(signed)
+    shown = []
+    for c_, t_, e_ in signed:
+        pos = positive_arm(t_, e_)
+        lts = sorted({a_ for a_ in c_.atoms_deep() if a_[0] == "f" and atom_fn(a_) == "lt"}, key=repr)
+        pars = sorted({a_ for a_ in c_.atoms_deep() if a_ == after}, key=repr)
+        if pos is None or len(pars) != 1 or len(lts) > 1:
+            tables_ok = False
+            shown.append("unreadable selection %r" % (c_,))
+            continue
+        try:
+            for pv_ in (0, 1):
+                for nv_ in ((0, 1) if lts else (0,)):
+                    env_ = {pars[0]: pv_}
+                    if lts:
+                        env_[lts[0]] = nv_
+                    takes_t = bool(evaluate(c_, env_))
+                    negative = (e_ is pos) if takes_t else (t_ is pos)
+                    if negative != bool(pv_ ^ nv_):
+                        tables_ok = False
+                        shown.append("parity %d, own input negative %d -> %s" % (pv_, nv_, "negative" if negative else "positive"))
+        except NotEvaluable as ex:
+            tables_ok = False
+            shown.append("not evaluable: %s" % ex)
+    want_n = 1 if fam.startswith("minstarapprox") else 2
+    ck.inst("K5", what, upd_ok and same_guards and tables_ok and len(signed) == want_n, body.span,
+            "parity flips exactly on negative inputs (%s) over the same messages as the magnitude fold (%s); %d signed selection(s), each negative "
+            "exactly when parity XOR own sign is odd (%s)%s" % (upd_ok, same_guards, len(signed), tables_ok, (" : " + "; ".join(shown[:3])) if shown else ""))
+    # -- K7: the fold step
+    fv = fold[0][1][2][0]
+    fa = single_atom(fv) if isinstance(fv, Poly) else None
+    step_ok = init_ok = False
+    why = "running magnitude is not `match acc { None => |x|, Some(y) => step(|x|, y) }`"
+    if fa is not None and atom_fn(fa) == "match" and X is not None:
+        fname = fold[0][0].split("#")[0]
+        acc = var(fname + "@loop")
+        if atom_args(fa)[0] == acc:
+            arms = {k: unkey(v) for k, v in fa[3]}
+            A = num_call("abs", X)
+            Y = app("payload0", acc)
+            corr = lambda z: app("ln_1p", app("exp", -z)) if fam.endswith("f") else app("%s%s::lookup" % (ARI, ty), var("self.table"), z)
+            base = num_call("min", A, Y) - corr(num_call("abs", A - Y))
+            if fam.startswith("minstarapprox"):
+                spec = num_call("max", base, num(0))
+            elif fam == "aminstarf":
+                spec = base + corr(A + Y)
+            else:
+                spec = num_call("max", base + corr(app("saturating_add", A, Y)), num(0))
+            init_ok = arms.get("'None'") == A
+            step_ok = arms.get("('Some', '_')") == spec
+            why = "first element: |x| (%s); then step(|x|, y) = %r (%s)" % (init_ok, spec, step_ok)
+    ck.inst("K7", what, init_ok and step_ok, body.span, why[:700])
+    if fam.startswith("aminstar"):
+        # one more fold with the least reliable input: the others get box-plus(D, |x_min|) with D the fold over j != argmin
+        D = app("std::option::Option::<T>::expect", var(fold[0][0].split("#")[0] + "@after"))
+        mags = []
+        for c_, t_, e_ in signed:
+            pos = positive_arm(t_, e_)
+            if pos is not None:
+                mags.append(unhook(pos))
+        Ds = [m for m in mags if single_atom(m) is not None and atom_fn(single_atom(m)).endswith("::expect") and (fold[0][0].split("#")[0] + "@after") in repr(m)]
+        others = [m for m in mags if m not in Ds]
+        fin_ok = False
+        whyf = "%d signed magnitudes (%d the plain fold)" % (len(mags), len(Ds))
+        if len(Ds) == 1 and len(others) == 1:
+            Dv = Ds[0]
+            cands = [a_ for a_ in others[0].atoms_deep() if a_[0] == "f" and atom_fn(a_) == "abs" and "min_by" in repr(a_) and Dv.atoms() and not any(x in _deep_atoms(list(a_[2:])) for x in Dv.atoms())]
+            for a_ in cands:
+                V = Poly.atom(a_)
+                corr = lambda z: app("ln_1p", app("exp", -z)) if fam.endswith("f") else app("%s%s::lookup" % (ARI, ty), var("self.table"), z)
+                base = num_call("min", Dv, V) - corr(num_call("abs", Dv - V))
+                spec = base + corr(Dv + V) if fam == "aminstarf" else num_call("max", base + corr(app("saturating_add", Dv, V)), num(0))
+                spec2 = base + corr(Dv + V) if fam == "aminstarf" else num_call("max", base + corr(app("saturating_add", V, Dv)), num(0))
+                if others[0] in (spec, spec2):
+                    fin_ok = True
+            whyf = "towards the least reliable input: D = fold over the others; towards every other input: step(D, |x_min|) (%s)" % fin_ok
+        ck.inst("K7", what + ":final", fin_ok, body.span, whyf)
+
+
 def run(ck, F, tier):
     ck.explanation = (
         "Decided (S): K1 every check rule emits exactly one message per neighbour, addressed to that neighbour (flooding: one send per "
@@ -90,6 +247,8 @@ def run(ck, F, tier):
     ck.rule("K2", "leave-one-out structure")
     ck.rule("K3", "sibling operator profiles agree (flooding vs layered; float vs 8-bit; the 8 variants of a family)")
     ck.rule("K4", "constants named by the property")
+    ck.rule("K5", "sign application: an outgoing message is negative exactly when the parity of negative inputs (XOR its own input's sign, where the own input takes part in the parity) is odd")
+    ck.rule("K7", "fold step: the pairwise min* recurrence named by the property (approximation: positive term dropped and clamped at 0; A-Min*: exact)")
     ck.rule("K6", "every reduction ranges over exactly the messages of the node being processed (scratch vectors are read only over the prefix just written, zipped with the same message slice)")
     ck.assume("K3 compares independent implementations of the same rule; it cannot see an error made identically in both")
     impls = F.impls_of(TRAIT)
@@ -320,6 +479,8 @@ def run(ck, F, tier):
                 ck.inst("K2", "%s:%s" % (ty, tag), bool(folds) and all(folds) and abs_ok, body.span,
                         "the box-plus fold skips exactly the least reliable element (%d fold update(s), all under index != argmin: %s), argmin by |value| (%s)" % (
                             len(folds), bool(folds) and all(folds), abs_ok))
+            if fam in ("minstarapproxf", "minstarapproxi8", "aminstarf", "aminstari8"):
+                sign_and_step_rules(ck, F, ty, fam, tag, tr_, body)
 
     # ---- K6 -------------------------------------------------------------------------------------------------
     from .c10 import scratch_discipline
